@@ -209,7 +209,12 @@ func (e *Enc) invoke(fr *Frame, st *State, cc *ssa.CallCommon, recv *Val, args [
 			}
 			all := append([]*Val{recv}, args...)
 			e.assume(st, not(eq(recv.S[0], "0"))) // nil interface call panics
-			return e.modularCall(fr, st, c, names, all, rt, site, "("+tn+")."+name, sig)
+			reach := st.reach
+			res := e.modularCall(fr, st, c, names, all, rt, site, "("+tn+")."+name, sig)
+			if fr.top || true {
+				e.callLog = append(e.callLog, callRec{iface: cc.Value.Type(), method: name, reach: reach, res: res, sig: sig})
+			}
+			return res
 		}
 		e.note("uncontracted-call (havoc-all): interface method %s.%s.%s", pk, tn, name)
 	} else {
